@@ -80,7 +80,7 @@ def withC10 (c : Cfg) : Cfg :=
 /-- SyncWrites on; a two-entry batch whose second entry needs a memtable rotation; killed right
 after the new WAL segment was opened (the rotation has flushed and synced the old one) -/
 def splitState (c : Cfg) : St :=
-  let steps := commitSteps c (s0 true) 1 [(⟨1, false⟩, {}), (⟨2, false⟩, { mrot := true })] false
+  let steps := commitSteps c (s0 true) 1 [(⟨1, false, 0⟩, {}), (⟨2, false, 0⟩, { mrot := true })] false
   execAll (s0 true) (steps.take 6)   -- accept, wAppend, write:wal, sync:wal, close:wal, open:wal
 
 /-- `lsm.batchSplit = split`: `SetBatch` cuts a batch at a memtable rotation; the segment switch
@@ -96,7 +96,7 @@ theorem C10_fails_asis_split (c : Cfg) (hc : c.batchWhole = false) :
 /-- SyncWrites off; a two-entry batch during whose second append the WAL's bufio buffer spills
 (`pre := 1`); the call returns; killed between two calls -/
 def walbufferState (c : Cfg) : St :=
-  run c (s0 false) [.commit 1 [(⟨1, false⟩, {}), (⟨2, false⟩, { pre := 1 })] false]
+  run c (s0 false) [.commit 1 [(⟨1, false, 0⟩, {}), (⟨2, false, 0⟩, { pre := 1 })] false]
 
 /-- `wal.batchAppend = perRecord`: the records of a batch go through the 256 KiB bufio buffer one
 `Write` at a time; a spill in the middle of a batch makes a proper prefix of it durable. -/
@@ -112,8 +112,8 @@ theorem C10_fails_asis_walbuffer (c : Cfg) (hc : c.atomicAppend = false) :
 first value rotates the value log to file 1 and whose second entry rotates the memtable: the WAL
 record pointing into file 1 is durable, the manifest still says file 0; killed there -/
 def danglingState (c : Cfg) : St :=
-  let s1 := run c (s0 true) [.commit 1 [(⟨1, true⟩, {})] false]
-  let steps := commitSteps c s1 2 [(⟨2, true⟩, { vrot := true }), (⟨3, true⟩, { mrot := true })] false
+  let s1 := run c (s0 true) [.commit 1 [(⟨1, true, 0⟩, {})] false]
+  let steps := commitSteps c s1 2 [(⟨2, true, 0⟩, { vrot := true }), (⟨3, true, 0⟩, { mrot := true })] false
   execAll s1 (steps.take 12)
 
 /-- `db.applyOrder = lsm,head` (with a mid-batch flush available): `reconcileManifest` removes the
